@@ -52,7 +52,7 @@ func c06r1(c *an.Ctx) {
 	if !c.Check(hcall != nil, "(*Server).handleRPC | invokes the handler", c.P.Pos(fn.Pos()), "", "handleRPC no longer calls Handler.HandleRPC") {
 		return
 	}
-	flow := &an.Flow{Fn: fn, Init: []string{""},
+	flow := &an.Flow{Fn: fn, Inline: an.InlineSamePackage(fn), Init: []string{""},
 		Step: func(st string, in ssa.Instruction) []string {
 			call, ok := in.(*ssa.Call)
 			if !ok {
@@ -100,7 +100,7 @@ func c06r1(c *an.Ctx) {
 // has observed the stream already terminated.
 func alwaysTerminates(c *an.Ctx, fn *ssa.Function) (bool, string) {
 	sa := streamA(c)
-	flow := &an.Flow{Fn: fn, Init: []string{""},
+	flow := &an.Flow{Fn: fn, Inline: an.InlineSamePackage(fn), Init: []string{""},
 		Step: func(st string, in ssa.Instruction) []string {
 			if call, ok := in.(*ssa.Call); ok && an.IsCallTo(call.Common(), sa.terminate) {
 				return []string{"T"}
@@ -253,7 +253,7 @@ func c06r5(c *an.Ctx) {
 	pkts := a.field("drpcmanager", "Manager", "pkts")
 	pdone := a.field("drpcmanager", "Manager", "pdone")
 	chanSend := a.obj("drpcsignal", "(*Chan).Send")
-	flow := &an.Flow{Fn: sv, Init: []string{"idle"},
+	flow := &an.Flow{Fn: sv, Inline: an.InlineSamePackage(sv), Init: []string{"idle"},
 		Step: func(st string, in ssa.Instruction) []string {
 			if call, ok := in.(*ssa.Call); ok && an.IsCallTo(call.Common(), chanSend) && recvField(call.Common()) == pdone.Origin() {
 				switch st {
